@@ -1,8 +1,10 @@
 package main
 
 import (
+	"fmt"
 	"go/token"
 	"go/types"
+	"os"
 	"strings"
 
 	"golang.org/x/tools/go/ssa"
@@ -12,7 +14,7 @@ func init() {
 	register(&propDef{
 		ID:      "C11",
 		Level:   "other",
-		Explain: "Certificate store and sources, decided structurally. Sites are found by ROLE (what an instruction does) inside REGIONS (an entry plus the same-package helpers and closures below it), not by the names of unexported functions: the certificate SET is the struct type with a []tls.Certificate field that package cert publishes with a sync/atomic store (any spelling), its INDEX is the string-keyed map field, the HANDSHAKE CALLBACKS are the functions stored into tls.Config.GetCertificate, the PUBLISH ENTRY is the function taking a []tls.Certificate below which the set is published. (A1) every publish below the publish entry is dominated by the construction of the index of the published set, and nothing writes the set afterwards; (A2) no function below a handshake callback can load the published set twice on one path, and a function that is handed the set does not reload it (no handshake sees a mixture of two sets); (M1) whatever a handshake callback returns as the first certificate of the set is returned under a known 'not strict' condition, and a strict miss returns (nil, nil); (M2) every lookup in the name index below a handshake callback uses a key derived from strings.ToLower(ServerName), with trailing dots trimmed (hand-written loop or strings.TrimRight/TrimSuffix); (M3) wildcard candidates keep the label count of the requested name (Split / store \"*\" / Join); (M4) every key stored into the name index is known non-empty or an element of the certificate's DNSNames; (M5) the publish entry reaches the atomic publish on every path; (L1) every cycle of every condition-less loop in package cert is paced (sleep, channel operation, a helper that always does one of these, or an advancing Consul blocking query) and the error edge of a Consul query sleeps — a source delivering unusable material cannot spin; (L2) no send on a certificates channel is reachable from the error edge of the fallible loader that produced the value, also when loader and send are in different functions — unusable material never replaces the working set; (L3) the loop that builds the result of the PEM loader runs over a sorted name list, not over map iteration; (L4) TLSConfig starts, on every path to a successful return, a goroutine that applies every set received from src.Certificates() to the store unconditionally. Not decided: X.509 name matching beyond the exact / one-label-wildcard index lookup (certificate contents).",
+		Explain: "Certificate store and sources, decided structurally. Sites are found by ROLE (what an instruction does) inside REGIONS (an entry plus the same-package helpers and closures below it), not by the names of unexported functions: the certificate SET is the struct type with a []tls.Certificate field that package cert publishes with a sync/atomic store (any spelling) or keeps in a field of a holder struct with a sync.Mutex/RWMutex, its INDEX is the string-keyed map (or maps) - a field of the set or of a small struct the set holds - that delivers a certificate, a pointer to one or a POSITION in the list, the HANDSHAKE CALLBACKS are the functions stored into tls.Config.GetCertificate, the PUBLISH ENTRY is the function taking a []tls.Certificate below which the set is published. Calls are followed through static callees, through the interfaces package cert declares itself (a callback turned into an interface) and through function values kept in locals, parameters, struct fields and package variables. (A1) every publish below the publish entry is dominated by the construction of the index of the published set, and nothing writes the set afterwards; (A2) no function below a handshake callback can load the published set twice on one path, and a function that is handed the set does not reload it (no handshake sees a mixture of two sets); (M1) whatever a handshake callback returns as a certificate taken from the list by position is returned under a known 'not strict' condition - unless the position is what a tested lookup in the name index delivered (selected by name) - and a strict miss returns (nil, nil); the strictness flag may be a bool or an enumerated mode whose constants are chosen by it; (M2) every lookup in the name index below a handshake callback uses a key derived from strings.ToLower(ServerName) - at every call site of an accessor the key is handed to - with trailing dots trimmed (hand-written loop, strings.TrimRight/TrimSuffix/TrimRightFunc); (M3) wildcard candidates keep the label count of the requested name (Split / store \"*\" / Join); (M4) every key stored into the name index is known non-empty or an element of the certificate's DNSNames; (M5) the publish entry reaches the atomic publish on every path; (L1) every cycle of every condition-less loop in package cert is paced (sleep, channel operation, a helper that always does one of these, or an advancing Consul blocking query) and the error edge of a Consul query sleeps — a source delivering unusable material cannot spin; (L2) no send on a certificates channel is reachable from the error edge of the fallible loader that produced the value, also when loader and send are in different functions — unusable material never replaces the working set; (L3) the loop that builds the result of the PEM loader runs over a sorted name list, not over map iteration; (L4) TLSConfig starts, on every path to a successful return, a goroutine that applies every set received from src.Certificates() to the store unconditionally. Not decided: X.509 name matching beyond the exact / one-label-wildcard index lookup (certificate contents).",
 		Run:     runC11,
 		Trusted: []string{"Consul blocking queries with WaitIndex block until the index moves or the wait time passes", "sync/atomic.Value", "sync/atomic.Pointer"},
 		Mutants: []mutant{
@@ -79,8 +81,13 @@ func init() {
 	})
 }
 
+// c11lastModel: the model of the run in progress, for the rules chained after runC11 (c11_round3.go).
+var c11lastModel *c11Model
+
 func runC11(c *Ctx) {
+	c11useCtx(c)
 	m := newC11Model(c)
+	c11lastModel = m
 	if m == nil {
 		return
 	}
@@ -93,6 +100,11 @@ func runC11(c *Ctx) {
 	runC11L2(c)
 	runC11L3(c)
 	runC11L4(c, m)
+	if os.Getenv("C11_DEBUG") != "" { // development aid: every obligation of this run
+		for _, o := range c.Obs {
+			fmt.Fprintf(os.Stderr, "C11_DEBUG %s %s [%s] at %s\n", o.Status, o.Rule, o.Construct, o.Pos)
+		}
+	}
 }
 
 // ---- the model: who plays which role in package cert ----------------------------------------------------------------
@@ -110,16 +122,20 @@ func c11isCertPtr(t types.Type) bool {
 }
 
 type c11Model struct {
-	c        *Ctx
-	setType  *types.Named    // the certificate set (struct with a []tls.Certificate field), found through what is published atomically
-	certsFld string          // its field of type []tls.Certificate
-	idxFld   string          // its string-keyed map field (the name index)
-	idxType  string          // type string of the index map
-	cells    map[string]bool // the atomic cells the set is published in ("cert.Store.cs")
-	entry    *ssa.Function   // publish entry (Store.SetCertificates by role)
-	entryReg []*ssa.Function
-	cbs      []*ssa.Function // handshake callbacks (values of tls.Config.GetCertificate)
-	hsReg    []*ssa.Function // region below the handshake callbacks
+	c         *Ctx
+	setType   *types.Named    // the certificate set (struct with a []tls.Certificate field), found through what is published atomically
+	certsFld  string          // its field of type []tls.Certificate
+	idxFld    string          // its string-keyed map field (the name index)
+	idxType   string          // type string of the (first) index map
+	idxTypes  map[string]bool // type strings of all maps that serve as name index (an index may be split into several maps)
+	idxPath   map[string]bool // "struct type.field" of every field on the way from the set to an index map (the map field itself included)
+	cells     map[string]bool // the cells the set is published in ("cert.Store.cs"): atomic cells, or fields guarded by a mutex
+	guarded   map[string]bool // those of the cells that are plain fields of a struct with a sync.Mutex / sync.RWMutex (c11_guarded.go)
+	entry     *ssa.Function   // publish entry (Store.SetCertificates by role)
+	entryReg  []*ssa.Function
+	cbs       []*ssa.Function    // handshake callbacks (values of tls.Config.GetCertificate)
+	hsReg     []*ssa.Function    // region below the handshake callbacks
+	senseBusy map[ssa.Value]bool // comparisons whose strictness sense is being computed (recursion guard of modeSense)
 }
 
 // c11cellKey names the memory cell an atomic operation works on: a field of a named struct or a package-level variable.
@@ -142,6 +158,7 @@ func c11cellKey(cell ssa.Value) string {
 }
 
 // c11setStruct: t (through one pointer) is a named struct with a []tls.Certificate field -> (named, certs field, index field, index type).
+// The index is looked for in the struct itself and in the small structs it holds (c11findIndex in c11_index.go).
 func c11setStruct(t types.Type) (*types.Named, string, string, string) {
 	if p, ok := t.Underlying().(*types.Pointer); ok {
 		t = p.Elem()
@@ -154,26 +171,21 @@ func c11setStruct(t types.Type) (*types.Named, string, string, string) {
 	if !ok {
 		return nil, "", "", ""
 	}
-	certs, idx, idxT := "", "", ""
+	certs := ""
 	for i := 0; i < st.NumFields(); i++ {
-		f := st.Field(i)
-		if c11isCertSlice(f.Type()) && certs == "" {
+		if f := st.Field(i); c11isCertSlice(f.Type()) && certs == "" {
 			certs = f.Name()
-		}
-		if mp, ok := f.Type().Underlying().(*types.Map); ok && idx == "" {
-			if b, ok := mp.Key().Underlying().(*types.Basic); ok && b.Kind() == types.String {
-				idx, idxT = f.Name(), typeStr(f.Type())
-			}
 		}
 	}
 	if certs == "" {
 		return nil, "", "", ""
 	}
-	return n, certs, idx, idxT
+	ix := c11findIndex(n)
+	return n, certs, ix.first, ix.firstType
 }
 
 func newC11Model(c *Ctx) *c11Model {
-	m := &c11Model{c: c, cells: map[string]bool{}}
+	m := &c11Model{c: c, cells: map[string]bool{}, guarded: map[string]bool{}}
 	if c.spkg("cert") == nil {
 		c.undecided("C11.A1", "anchor|package cert", "package cert not found")
 		return nil
@@ -189,6 +201,8 @@ func newC11Model(c *Ctx) *c11Model {
 				if n, cf, xf, xt := c11setStruct(v.Type()); n != nil {
 					if m.setType == nil || (m.idxFld == "" && xf != "") {
 						m.setType, m.certsFld, m.idxFld, m.idxType = n, cf, xf, xt
+						ix := c11findIndex(n)
+						m.idxTypes, m.idxPath = ix.types, ix.path
 					}
 					if k := c11cellKey(cell); k != "" && types.Identical(n, m.setType) {
 						m.cells[k] = true
@@ -198,7 +212,10 @@ func newC11Model(c *Ctx) *c11Model {
 		})
 	}
 	if m.setType == nil {
-		c.undecided("C11.A1", "anchor|atomically published certificate set", "package cert publishes no struct with a []tls.Certificate field through sync/atomic")
+		m.findGuardedCells() // the holder may keep the set in a mutex-protected field instead
+	}
+	if m.setType == nil {
+		c.undecided("C11.A1", "anchor|atomically published certificate set", "package cert publishes no struct with a []tls.Certificate field through sync/atomic, and keeps none in a field of a struct with a mutex")
 		return nil
 	}
 	if m.idxFld == "" {
@@ -283,6 +300,13 @@ func c11funcsOf(v ssa.Value, depth int) []*ssa.Function {
 		}
 		break
 	}
+	if vals, isLoad := c11storedInto(v); isLoad {
+		// a function kept in a struct field or a package variable: whatever is stored there
+		for _, sv := range vals {
+			out = append(out, c11funcsOf(sv, depth+1)...)
+		}
+		return out
+	}
 	switch x := v.(type) {
 	case *ssa.Parameter:
 		if x.Parent() == nil {
@@ -330,29 +354,10 @@ func c11funcsOf(v ssa.Value, depth int) []*ssa.Function {
 // c11callee: the repository function a call denotes — its static callee, or the single function a local or captured
 // function variable can hold. nil for interface calls and calls that cannot be resolved.
 func c11callee(cc *ssa.CallCommon) *ssa.Function {
-	if cc == nil || cc.IsInvoke() {
-		return nil
+	if fs := c11callees(cc); len(fs) == 1 {
+		return fs[0]
 	}
-	if sc := cc.StaticCallee(); sc != nil {
-		if !isRepoFn(sc) {
-			return nil
-		}
-		return unwrap(sc)
-	}
-	if _, isBuiltin := cc.Value.(*ssa.Builtin); isBuiltin {
-		return nil
-	}
-	var one *ssa.Function
-	for _, f := range c11funcsOf(cc.Value, 0) {
-		if one != nil && one != f {
-			return nil
-		}
-		one = f
-	}
-	if one != nil && !isRepoFn(one) {
-		return nil
-	}
-	return one
+	return nil
 }
 
 // c11region is Ctx.region that also enters the closures reached through calls of captured function variables.
@@ -368,7 +373,10 @@ func c11region(c *Ctx, roots ...*ssa.Function) []*ssa.Function {
 			if cc == nil || cc.StaticCallee() != nil {
 				return
 			}
-			if g := c11callee(cc); g != nil && !seen[g] && rootPkg(g) == rootPkg(out[k]) {
+			for _, g := range c11callees(cc) {
+				if seen[g] || rootPkg(g) != rootPkg(out[k]) {
+					continue
+				}
 				for _, h := range c.region(g) {
 					if !seen[h] {
 						seen[h] = true
@@ -398,8 +406,10 @@ func c11mayExec(fn *ssa.Function, pred func(ssa.Instruction) bool, depth int) bo
 		if _, isGo := i.(*ssa.Go); isGo {
 			return
 		}
-		if g := c11callee(callCommon(i)); g != nil && g != fn && c11mayExec(g, pred, depth+1) {
-			hit = true
+		for _, g := range c11callees(callCommon(i)) {
+			if g != fn && c11mayExec(g, pred, depth+1) {
+				hit = true
+			}
 		}
 	})
 	return hit
@@ -414,37 +424,51 @@ func c11liftMay(pred func(ssa.Instruction) bool) func(ssa.Instruction) bool {
 		if !ok {
 			return false
 		}
-		g := c11callee(&call.Call)
-		return g != nil && c11mayExec(g, pred, 1)
+		for _, g := range c11callees(&call.Call) {
+			if c11mayExec(g, pred, 1) {
+				return true
+			}
+		}
+		return false
 	}
 }
 
-// isPublish: an atomic store/swap of a certificate set into one of the set's cells.
-func (m *c11Model) isPublish(i ssa.Instruction) bool {
-	kind, cell, val, ok := atomicOp(callCommon(i))
-	if !ok || (kind != "store" && kind != "swap") || val == nil {
-		return false
-	}
+// publishOp: the instruction installs a certificate set in one of the set's cells — an atomic store/swap/cas, or a plain
+// store into a mutex-guarded cell -> the value installed and the kind of operation ("store", "swap", "cas").
+func (m *c11Model) publishOp(i ssa.Instruction) (ssa.Value, string, bool) {
 	if _, isGo := i.(*ssa.Go); isGo {
-		return false
+		return nil, "", false
 	}
-	return m.cells[c11cellKey(cell)]
+	if st, ok := i.(*ssa.Store); ok {
+		if fa, isFA := st.Addr.(*ssa.FieldAddr); isFA && m.guarded[c11fieldKey(fa.X.Type(), fa.Field)] {
+			return st.Val, "store", true
+		}
+		return nil, "", false
+	}
+	kind, cell, val, ok := atomicOp(callCommon(i))
+	if !ok || (kind != "store" && kind != "swap" && kind != "cas") || val == nil || !m.cells[c11cellKey(cell)] {
+		return nil, "", false
+	}
+	return val, kind, true
+}
+
+// isPublish: a store/swap of a certificate set into one of the set's cells.
+func (m *c11Model) isPublish(i ssa.Instruction) bool {
+	_, kind, ok := m.publishOp(i)
+	return ok && kind != "cas"
 }
 
 // isPublishTry: isPublish, or a compare-and-swap that may publish.
 func (m *c11Model) isPublishTry(i ssa.Instruction) bool {
-	if m.isPublish(i) {
-		return true
-	}
-	kind, cell, val, ok := atomicOp(callCommon(i))
-	if _, isGo := i.(*ssa.Go); isGo || !ok || kind != "cas" || val == nil {
-		return false
-	}
-	return m.cells[c11cellKey(cell)]
+	_, _, ok := m.publishOp(i)
+	return ok
 }
 
-// isSetLoad: an atomic load of one of the set's cells.
+// isSetLoad: an atomic load of one of the set's cells, or a read of (a part of) a mutex-guarded cell.
 func (m *c11Model) isSetLoad(i ssa.Instruction) bool {
+	if u, ok := i.(*ssa.UnOp); ok {
+		return u.Op == token.MUL && len(m.guarded) > 0 && m.guardedAddr(u.X)
+	}
 	kind, cell, _, ok := atomicOp(callCommon(i))
 	return ok && kind == "load" && m.cells[c11cellKey(cell)]
 }
@@ -458,7 +482,7 @@ func (m *c11Model) isSet(t types.Type) bool {
 
 // isIndexMap: v is a value of the index map's type (the field itself, a local copy of it, a map under construction).
 func (m *c11Model) isIndexMap(v ssa.Value) bool {
-	return m.idxType != "" && typeStr(v.Type()) == m.idxType
+	return m.idxType != "" && m.idxTypes[typeStr(v.Type())]
 }
 
 // isIndexWrite: the instruction fills or installs a name index: a map update on a map of the index type, or a store to
@@ -468,7 +492,7 @@ func (m *c11Model) isIndexWrite(i ssa.Instruction) bool {
 	case *ssa.MapUpdate:
 		return m.isIndexMap(x.Map)
 	case *ssa.Store:
-		if fa, ok := x.Addr.(*ssa.FieldAddr); ok && m.isSet(fa.X.Type()) && fieldName(fa.X.Type(), fa.Field) == m.idxFld {
+		if fa, ok := x.Addr.(*ssa.FieldAddr); ok && m.idxPath[c11fieldKey(fa.X.Type(), fa.Field)] {
 			return true
 		}
 	}
@@ -581,7 +605,7 @@ func runC11A(c *Ctx, m *c11Model) {
 				return
 			}
 			n++
-			_, _, val, _ := atomicOp(callCommon(i))
+			val, _, _ := m.publishOp(i)
 			built, bad := false, ""
 			cands := publishedValue(val)
 			if raw := stripIface(val); len(cands) != 1 || cands[0] != raw {
@@ -626,7 +650,7 @@ func runC11A(c *Ctx, m *c11Model) {
 		var loads []ssa.Instruction
 		isLoad := c11liftMay(m.isSetLoad)
 		eachInstr(f, func(i ssa.Instruction) {
-			if _, isCall := i.(*ssa.Call); isCall && isLoad(i) {
+			if _, isCall := i.(*ssa.Call); (isCall && isLoad(i)) || m.isSetLoad(i) {
 				loads = append(loads, i)
 			}
 		})
@@ -770,6 +794,24 @@ func (m *c11Model) strictSense(v ssa.Value, depth int) int {
 				}
 				return s
 			}
+			// an enumerated mode compared with one of its constants
+			for _, p := range [][2]ssa.Value{{x.X, x.Y}, {x.Y, x.X}} {
+				if k, isK := p[1].(*ssa.Const); isK && !m.senseBusy[x] {
+					if _, otherK := p[0].(*ssa.Const); otherK {
+						continue
+					}
+					if m.senseBusy == nil {
+						m.senseBusy = map[ssa.Value]bool{}
+					}
+					m.senseBusy[x] = true
+					s := m.modeSense(p[0], k, depth)
+					delete(m.senseBusy, x)
+					if x.Op == token.NEQ {
+						s = -s
+					}
+					return s
+				}
+			}
 		}
 		return 0
 	case *ssa.Parameter:
@@ -824,9 +866,11 @@ func (m *c11Model) fieldSense(structT types.Type, field int, depth int) int {
 }
 
 // strictKnown: the facts at b say whether strict matching is on: +1 strict, -1 not strict, 0 unknown.
-func (m *c11Model) strictKnown(b *ssa.BasicBlock) int {
+func (m *c11Model) strictKnown(b *ssa.BasicBlock) int { return m.strictKnownDepth(b, 0) }
+
+func (m *c11Model) strictKnownDepth(b *ssa.BasicBlock, depth int) int {
 	for _, f := range factsAt(b) {
-		if s := m.strictSense(f.Cond, 0); s != 0 {
+		if s := m.strictSense(f.Cond, depth); s != 0 {
 			if !f.Truth {
 				s = -s
 			}
@@ -840,11 +884,13 @@ func (m *c11Model) strictKnown(b *ssa.BasicBlock) int {
 // operand comes in on carries the branch condition even when the predecessor block itself does not).
 type c11at struct{ b, to *ssa.BasicBlock }
 
-func (m *c11Model) strictKnownAt(at c11at) int {
+func (m *c11Model) strictKnownAt(at c11at) int { return m.strictKnownAtDepth(at, 0) }
+
+func (m *c11Model) strictKnownAtDepth(at c11at, depth int) int {
 	if at.b == nil {
 		return 0
 	}
-	if s := m.strictKnown(at.b); s != 0 {
+	if s := m.strictKnownDepth(at.b, depth); s != 0 {
 		return s
 	}
 	if at.to == nil || len(at.b.Instrs) == 0 || len(at.b.Succs) != 2 || at.b.Succs[0] == at.b.Succs[1] {
@@ -854,7 +900,7 @@ func (m *c11Model) strictKnownAt(at c11at) int {
 	if !ok {
 		return 0
 	}
-	s := m.strictSense(iff.Cond, 0)
+	s := m.strictSense(iff.Cond, depth)
 	if at.b.Succs[1] == at.to {
 		s = -s
 	}
@@ -993,7 +1039,7 @@ func runC11M(c *Ctx, m *c11Model) {
 				if isNilConst(l.v) && strict && !notStrict {
 					nStrictMiss++
 				}
-				if !c11isFirstCert(l.v) {
+				if !c11isFirstCert(l.v) || m.positionByName(l) {
 					continue
 				}
 				vd := fallback[l.v]
@@ -1035,6 +1081,24 @@ func runC11M(c *Ctx, m *c11Model) {
 		}
 		cut, isK := constString(call.Call.Args[1])
 		switch calleeName(&call.Call) {
+		case "strings.TrimRightFunc", "strings.TrimFunc":
+			// the predicate tests for '.'
+			for _, pf := range c11funcsOf(call.Call.Args[1], 0) {
+				dot := false
+				eachInstr(pf, func(i ssa.Instruction) {
+					if b, isB := i.(*ssa.BinOp); isB && (b.Op == token.EQL || b.Op == token.NEQ) {
+						for _, o := range []ssa.Value{b.X, b.Y} {
+							if k, isInt := constInt(o); isInt && k == '.' {
+								dot = true
+							}
+						}
+					}
+				})
+				if dot {
+					return true
+				}
+			}
+			return false
 		case "strings.TrimRight", "strings.Trim":
 			return isK && strings.Contains(cut, ".")
 		case "strings.TrimSuffix":
@@ -1049,7 +1113,7 @@ func runC11M(c *Ctx, m *c11Model) {
 			return
 		}
 		nLk++
-		c.check("C11.M2", fnKey(f)+"|index lookup key is the lower-cased server name", lk.Pos(), derives(lk.Index, isLowerName),
+		c.check("C11.M2", fnKey(f)+"|index lookup key is the lower-cased server name", lk.Pos(), m.atEverySite(lk.Index, 0, func(v ssa.Value) bool { return derives(v, isLowerName) }),
 			"the name index must be searched with strings.ToLower(clientHello.ServerName) (and names derived from it): server names are case-insensitive, 'WWW.Example.com' must find the certificate for www.example.com")
 		if derives(lk.Index, func(v ssa.Value) bool { return isDotTrim(v) && derives(v, isServerName) }) {
 			trim = true
